@@ -6,7 +6,7 @@ SPEC = {
     "id": "C11",
     "props_module": "NDB.Props.C11",
     "corr_modules": ["NDB.Corr.C11"],
-    "theorems": ["C11_optional_nonempty", "C11_window_lengths", "C11_crosspattern_refuted", "C11_distinct_window_refuted", "C11_parallel_refuted"],
+    "theorems": ["C11_optional_nonempty", "C11_window_lengths", "C11_reference_unique", "C11_crosspattern_refuted", "C11_projection_agrees", "C11_parallel_refuted"],
     "allowed_axioms": _m.ALLOWED,
     "harness_pkg": "hx_query",
     "harness_bin": "c11",
@@ -23,7 +23,7 @@ SPEC = {
     "assumptions": [
         "SAMPLED: that the implementation equals the model is checked on generated graph x query pairs only; this part of the quantifier is not proved",
         "NOT PROVED: C11_full_statement (Faithful = Reference up to permutation outside the known classes) - evaluated per generated case; "
-        "invariance under permutation of the relationship list, WHERE/projection commutation, relationship uniqueness of every Reference row",
+        "invariance under permutation of the relationship list, WHERE/projection commutation",
         "fragment generated: one/two-hop patterns with labels, types and three directions, comma-separated patterns, OPTIONAL MATCH with WHERE, "
         "typed WHERE predicates, WITH, UNWIND, DISTINCT, grouped aggregation (count/min/max/collect), ORDER BY, SKIP, LIMIT. "
         "Variable-length patterns, named paths, pattern predicates and sum/avg are NOT in the model and are not generated",
@@ -32,14 +32,14 @@ SPEC = {
     "manifest": {
         "category": "proof",
         "text": "SAMPLED + PARTIAL. Query/Clauses.v gives the clause semantics twice: Faithful (the plans the engine builds) and Reference "
-                "(openCypher). Proved: OPTIONAL MATCH returns at least one row per input row, LIMIT/SKIP lengths, and three refutations "
+                "(openCypher). Proved: every match the Reference returns for one MATCH clause (all comma-separated patterns together) uses pairwise distinct relationships of the graph, one per hop; OPTIONAL MATCH returns at least one row per input row; LIMIT/SKIP lengths; and two refutations "
                 "Faithful <> Reference by evaluation - the known findings: K-C11-crosspattern (relationship uniqueness is not applied across "
-                "comma-separated patterns: 5 rows instead of 2 on two parallel relationships and a self loop), K-C11-distinct-window (DISTINCT is "
-                "planned after SKIP/LIMIT: UNWIND [1,1,1,2] AS x RETURN DISTINCT x LIMIT 2 returns [1], not [1,2]) and K-C11-parallel (inside one "
+                "comma-separated patterns: 5 rows instead of 2 on two parallel relationships and a self loop), and K-C11-parallel (inside one "
                 "pattern chain a relationship key of multiplicity m is blocked only after m uses while all m entries are enumerated each time: "
                 "(a)-[r1]->(b)<-[r2]-(c) over two parallel relationships returns 4 rows, not 2). That the implementation equals Faithful - and "
-                "Faithful equals Reference outside the three classes - is checked on generated graph x query pairs (multiset, sequence under a "
+                "Faithful equals Reference outside the two classes - is checked on generated graph x query pairs (multiset, sequence under a "
                 "total ORDER BY): this part of the quantifier stays sampled; the general statement C11_full_statement is not proved.",
+        "fixed_note": "DISTINCT was planned after SKIP/LIMIT (UNWIND [1,1,1,2] AS x RETURN DISTINCT x LIMIT 2 returned [1]): repaired by b18a8dc, the witness runs first in the harness",
         "design_ref": "DESIGN.md §5 C11/C12 reference semantics, §8",
         "level_note": "Implementation = model is sampled, not proved; variable-length patterns, named paths, pattern predicates and sum/avg are outside the model.",
         "technique": "executable reference semantics in Rocq + vm_compute correspondence on generated graph x query pairs + refutation witnesses + direct uniqueness / DISTINCT-window checks on the engine",
